@@ -1,6 +1,7 @@
 package checks
 
 import (
+	"context"
 	"crypto/sha256"
 	"encoding/hex"
 	"encoding/json"
@@ -10,6 +11,8 @@ import (
 	"os/exec"
 	"path/filepath"
 	"strconv"
+	"sync"
+	"sync/atomic"
 	"testing"
 	"time"
 
@@ -74,6 +77,9 @@ func digestBlock(c *vnet.Chain, txs [][]byte, res *abci.ResponseFinalizeBlock, r
 	return blockDigest{Chain: c.Name, Height: r.Height, Inputs: hex.EncodeToString(hi.Sum(nil)[:12]), Results: hex.EncodeToString(hr.Sum(nil)[:12]), AppHash: hex.EncodeToString(r.AppHash[:8])}
 }
 
+// c20OnNet, when set, is told about the network of a history (used by the race-detector pass to attach concurrent readers).
+var c20OnNet func(*vnet.Network)
+
 // c20History runs history i and returns its block digests. realSeal: include ETH updates with the real ethash check.
 func c20History(i int, seed int64, realSeal bool) []blockDigest {
 	rng := rand.New(rand.NewSource(seed*15485863 + int64(i)))
@@ -82,6 +88,9 @@ func c20History(i int, seed int64, realSeal bool) []blockDigest {
 	cfg.FullMesh = i%2 == 0
 	cfg.Steps = 60
 	net := world.NewPktNetwork(seed*611953+int64(i), rng, cfg)
+	if c20OnNet != nil {
+		c20OnNet(net)
+	}
 	var out []blockDigest
 	for _, c := range net.Chains {
 		c := c
@@ -299,4 +308,54 @@ func TestC20(t *testing.T) {
 		}
 	}
 	setExit(rec.Finish())
+}
+
+// TestC20Race runs under `go test -race` (thorough tier, see run.sh): history 0 with the real ethash check while reader
+// goroutines issue TIBC gRPC queries against committed heights of every chain. Race reports go to GORACE's log_path and
+// are classified by run.sh; this test only has to drive the workload and check that the digests still agree.
+func TestC20Race(t *testing.T) {
+	if os.Getenv("VERIF_RACE_PASS") == "" {
+		t.Skip("only run by run.sh in the race pass")
+	}
+	seed := mon.Seed()
+	ref := c20History(0, seed, true)
+	stop := make(chan struct{})
+	var wg sync.WaitGroup
+	var queries int64
+	c20OnNet = func(net *vnet.Network) {
+		for _, c := range net.Chains {
+			c := c
+			for q := 0; q < 2; q++ {
+				wg.Add(1)
+				go func(q int) {
+					defer wg.Done()
+					paths := []string{"/tibc.core.client.v1.Query/ClientStates", "/tibc.core.routing.v1.Query/RoutingRules", "/tibc.core.client.v1.Query/Relayers"}
+					for n := 0; ; n++ {
+						select {
+						case <-stop:
+							return
+						default:
+						}
+						func() {
+							defer func() { recover() }()
+							c.App.Query(context.Background(), &abci.RequestQuery{Path: paths[n%len(paths)]})
+							c.App.Query(context.Background(), &abci.RequestQuery{Path: "store/tibc/key", Data: []byte("Routing/Rules"), Prove: true})
+						}()
+						atomic.AddInt64(&queries, 1)
+						time.Sleep(200 * time.Microsecond)
+					}
+				}(q)
+			}
+		}
+	}
+	other := c20History(0, seed, true)
+	close(stop)
+	wg.Wait()
+	c20OnNet = nil
+	k, what := firstDiff(ref, other)
+	fmt.Printf("RACE-PASS blocks=%d concurrent_queries=%d first_diff=%d %s\n", len(other), atomic.LoadInt64(&queries), k, what)
+	if what == "results" {
+		fmt.Printf("VIOLATION property=C20 replay=%s\n", "race-pass: results differ with concurrent readers at block "+strconv.Itoa(k))
+		t.Fail()
+	}
 }
